@@ -226,7 +226,10 @@ def quiet_during_exchange(c):
     return z3.Implies(z3.Not(c.old('_kex_complete')),
                       z3.And(z3.Not(c.new('_kex_complete')), c.new('_kexinit_sent') == c.old('_kexinit_sent'),
                              c.new('_rekey_time') == c.old('_rekey_time'),
-                             c.new('_rekey_bytes_sent') == c.old('_rekey_bytes_sent')))
+                             c.new('_rekey_bytes_sent') == c.old('_rekey_bytes_sent'),
+                             # ... nor the KEXINIT payloads the exchange hash is computed over
+                             c.new('_client_kexinit') == c.old('_client_kexinit'),
+                             c.new('_server_kexinit') == c.old('_server_kexinit')))
 
 
 def kexinit_sent_means_running(c):
@@ -236,8 +239,15 @@ def kexinit_sent_means_running(c):
 
 
 def queue_types_kept(c):
-    """class invariant of the queue (what _send_deferred_packets requires): every entry has a legal type"""
-    return z3.Implies(all_types_ok(c.old('_deferred_packets')), all_types_ok(c.new('_deferred_packets')))
+    """class invariant of the queue (what _send_deferred_packets requires): every entry has a legal type.  Stated
+    pointwise for an arbitrary index j (forall-introduction on a fresh constant, the hypothesis instantiated at the
+    same j): (forall j. ok(old, j) => ok(new, j)) implies all_types_ok(old) => all_types_ok(new)"""
+    j = z3.Int(fresh_name('qj'))
+    acc = tuple_sort(parse_type(TUP)).accessor(0, 0)
+
+    def ok_at(q):
+        return z3.Implies(z3.And(0 <= j, j < z3.Length(q)), z3.And(acc(q[j]) >= 1, acc(q[j]) <= 255))
+    return z3.Implies(ok_at(c.old('_deferred_packets')), ok_at(c.new('_deferred_packets')))
 
 
 CALLER_VIEW = [('class-inv', lambda c: send_inv(c, old=False)),
@@ -281,7 +291,8 @@ def _recursive_stub(cx):
     exchange: _kex_complete is in `modifies`).  Well-founded: the caller has pkttype > 49, the callee <= 49, and an
     activation with pkttype <= 49 makes no nested call (it would fail this very obligation)."""
     outer = cx.ex.entry_state.env['pkttype'].z
-    cx.require('recursion-is-well-founded(caller-pkttype>49>=nested-pkttype)', z3.And(cx.args[0].z <= 49, outer > 49))
+    cx.require('recursion-is-well-founded(pkttype<=49)', cx.args[0].z <= 49)
+    cx.require('recursion-is-well-founded(caller-pkttype>49)', outer > 49)
     return contract_stub(lambda: send_packet)(cx)
 
 
